@@ -108,6 +108,9 @@ type Deviations struct {
 	// correlated to the incoming rows: its seed is every node satisfying the predicates for some incoming row and its
 	// rows are cross-joined with all incoming rows.
 	ExpansionSeedCrossJoinsEarlierFrame bool
+	// PredicateOverBothExpansionEndsDropped: a WHERE conjunct that mentions both end nodes of a variable-length step is
+	// not emitted at all when the pattern continues after that step.
+	PredicateOverBothExpansionEndsDropped bool
 	// RegexMatchIsUnanchored: =~ succeeds when the pattern matches anywhere in the string (PostgreSQL's ~) instead of
 	// the whole string.
 	RegexMatchIsUnanchored bool
